@@ -29,6 +29,8 @@ use std::path::PathBuf;
 use vcore::*;
 
 mod synth;
+mod synth_cff;
+mod synth_hint;
 
 fn main() {
     main_for("C03", body)
@@ -95,6 +97,24 @@ struct FontJob {
     flavour: &'static str,
     /// interpreter hinting is meaningful only if the font carries instructions / is CFF
     synthetic: bool,
+    /// synthetic families: the feature class of every glyph (part of violation identities)
+    classes: Option<std::sync::Arc<Vec<String>>>,
+    /// run the auto-hinter modes on this font (the hinted synthetic families are about the font's own
+    /// instructions / CFF hints; the auto-hinter ignores both)
+    auto_modes: bool,
+    /// ppem limit of this font in the thorough tier (None = the tier's N)
+    thorough_n: Option<u32>,
+    /// part of the quick tier
+    in_quick: bool,
+}
+
+impl FontJob {
+    fn label(&self, gid: u32) -> String {
+        match &self.classes {
+            Some(c) => format!("synthetic {}", c.get(gid as usize).map(|s| s.as_str()).unwrap_or("?")),
+            None => short(&self.name).to_string(),
+        }
+    }
 }
 
 fn short(name: &str) -> &str {
@@ -149,6 +169,10 @@ fn corpus_jobs() -> Vec<FontJob> {
                 glyphs,
                 flavour,
                 synthetic: false,
+                classes: None,
+                auto_modes: true,
+                thorough_n: None,
+                in_quick: glyphs <= QUICK_MAX_GLYPHS,
             });
         }
     }
@@ -526,11 +550,7 @@ fn run_task(jobs: &[FontJob], fi: usize, mode: Option<Hinting>, ppems: &[u32], l
                     let (kind, detail) = kind_of(other).unwrap();
                     // corpus fonts: label = file name; synthetic family: label = the glyph's feature class
                     // (the same defect shows on every unitsPerEm)
-                    let label = if job.synthetic {
-                        format!("synthetic {}", synth::class_of(gid))
-                    } else {
-                        short(&job.name).to_string()
-                    };
+                    let label = job.label(gid);
                     l.mism_font.entry(label.clone()).or_insert(fi);
                     *l.per_font_mism.entry((fi, class)).or_default() += 1;
                     let e = l.mism.entry((kind, label, class)).or_default();
@@ -590,7 +610,7 @@ fn body(run: &Run, replay: Option<&Value>) {
 
     let tmp = std::env::temp_dir().join(format!("c03-synth-{}", std::process::id()));
     let _ = std::fs::create_dir_all(&tmp);
-    let synth_jobs = synth::write_family(&tmp);
+    let synth_jobs = all_synth_jobs(&tmp);
 
     if let Some(case) = replay {
         replay_case(run, case, &synth_jobs);
@@ -604,9 +624,10 @@ fn body(run: &Run, replay: Option<&Value>) {
     if run.tier == Tier::Quick {
         // quick: the three fonts with known baseline deviations that are small enough, plus small hinted
         // TrueType and CFF fonts; the large fonts are left to the thorough tier
-        jobs.retain(|j| j.glyphs <= QUICK_MAX_GLYPHS);
+        jobs.retain(|j| j.in_quick);
     }
-    jobs.extend(synth_jobs.iter().cloned());
+    jobs.extend(synth_jobs.iter().filter(|j| run.tier == Tier::Thorough || j.in_quick).cloned());
+    let synth_count = jobs.iter().filter(|j| j.synthetic).count();
     let modes = modes();
 
     run.bound("ppem", json!(format!("unscaled, 1..={n_max}")));
@@ -615,15 +636,24 @@ fn body(run: &Run, replay: Option<&Value>) {
     run.bound("quick_font_filter", json!(format!("glyph count ≤ {QUICK_MAX_GLYPHS} (quick tier only)")));
     run.bound("auto_excluded_fonts", json!(AUTO_BASELINE_DISAGREES));
     run.bound("synthetic_family", json!(synth::describe()));
+    run.bound("synthetic_hinted_truetype_family", json!(format!("{}; modes: unhinted + 5 interpreter targets (no auto); quick: {:?}; thorough: all fonts at ppem 1..={}", synth_hint::describe(), synth_jobs.iter().filter(|j| j.in_quick && j.name.starts_with("synth-tt:")).map(|j| j.name.clone()).collect::<Vec<_>>(), HINTED_TT_THOROUGH_N)));
+    run.bound("synthetic_cff_family", json!(format!("{}; modes: unhinted + 5 hinted targets (no auto); quick: {:?}; thorough: all", synth_cff::describe(), synth_jobs.iter().filter(|j| j.in_quick && j.name.starts_with("synth-cff:")).map(|j| j.name.clone()).collect::<Vec<_>>())));
     run.extra("skrifa_features_enabled", json!(skrifa_feature_report()));
 
     // tasks in fixed order: font → mode → ppem chunk
     let chunk = 8usize;
     let mut tasks: Vec<(usize, Option<Hinting>, Vec<u32>)> = vec![];
-    for (fi, _) in jobs.iter().enumerate() {
+    for (fi, job) in jobs.iter().enumerate() {
         // the unscaled load (ppem 0) has no hinting dimension: done once, in the unhinted mode
+        let n_font = match (run.tier, job.thorough_n) {
+            (Tier::Thorough, Some(n)) => n,
+            _ => n_max,
+        };
         for (mi, m) in modes.iter().enumerate() {
-            let mut ppems: Vec<u32> = (1..=n_max).collect();
+            if matches!(m, Some(Hinting::Auto(_))) && !job.auto_modes {
+                continue;
+            }
+            let mut ppems: Vec<u32> = (1..=n_font).collect();
             if mi == 0 {
                 ppems.insert(0, 0);
             }
@@ -634,8 +664,8 @@ fn body(run: &Run, replay: Option<&Value>) {
         }
     }
     run.count("fonts", jobs.len() as u64);
-    run.count("fonts_corpus", (jobs.len() - synth_jobs.len()) as u64);
-    run.count("fonts_synthetic", synth_jobs.len() as u64);
+    run.count("fonts_corpus", (jobs.len() - synth_count) as u64);
+    run.count("fonts_synthetic", synth_count as u64);
     run.count("glyphs_total", jobs.iter().map(|j| j.glyphs as u64).sum());
     run.count("tasks", tasks.len() as u64);
 
@@ -744,10 +774,131 @@ fn body(run: &Run, replay: Option<&Value>) {
         run.violation(&id, &what, json!({"font": job.name, "gid": gid, "ppem": ppem, "mode": mname}));
     }
     run.extra("auto_baseline_disagreements", Value::Object(auto_excluded));
+    // vacuity guard for the hinted synthetic families: how many glyphs of each class does hinting change
+    // at all (skrifa, ppem 12, 17, 30, 45, Mono and Normal targets), and how many does FreeType reject
+    let mut effect = serde_json::Map::new();
+    for job in jobs.iter().filter(|j| j.synthetic && !j.auto_modes) {
+        effect.insert(job.name.clone(), hinting_effect(job));
+    }
+    run.extra("synthetic_hinted_families_effect", Value::Object(effect));
     let _ = std::fs::remove_dir_all(&tmp);
 }
 
 const QUICK_MAX_GLYPHS: u32 = 700;
+/// ppem limit of the hinted synthetic TrueType family in the thorough tier (DELTAP3 reaches ppem 56 with
+/// the default delta base; the fonts have ~11 000 glyphs each)
+const HINTED_TT_THOROUGH_N: u32 = 64;
+
+/// Per glyph class: glyphs, glyphs whose skrifa outline under interpreter hinting differs from the unhinted
+/// one (at ppem 12, 17, 30 or 45, target Mono / Normal), glyphs FreeType rejects under FT_LOAD_PEDANTIC (ppem 17,
+/// Normal).
+fn hinting_effect(job: &FontJob) -> Value {
+    let Some(classes) = &job.classes else {
+        return json!(null);
+    };
+    let Some(mut font) = Font::new(&job.path) else {
+        return json!("Font::new failed");
+    };
+    let mut digests = |font: &mut Font, ppem: u32, h: Option<Hinting>| -> Vec<u64> {
+        let opts = InstanceOptions::new(job.index, ppem, &[], h);
+        let Some((_ft, mut sk)) = font.instantiate(&opts) else {
+            return vec![];
+        };
+        let mut v = vec![];
+        let mut buf: Vec<PathElement> = vec![];
+        for g in 0..job.glyphs {
+            buf.clear();
+            let _ = sk.outline(GlyphId::new(g), &mut RegularizingPen::new(&mut buf, true));
+            v.push(elements_digest(&buf));
+        }
+        v
+    };
+    let mut changed_mono = vec![false; job.glyphs as usize];
+    let mut changed_normal = vec![false; job.glyphs as usize];
+    for ppem in [12, 17, 30, 45] {
+        let u = digests(&mut font, ppem, None);
+        let m = digests(&mut font, ppem, Some(Hinting::Interpreter(HintingTarget::Mono)));
+        let n = digests(&mut font, ppem, Some(Hinting::Interpreter(HintingTarget::Normal)));
+        for g in 0..job.glyphs as usize {
+            if u.get(g) != m.get(g) {
+                changed_mono[g] = true;
+            }
+            if u.get(g) != n.get(g) {
+                changed_normal[g] = true;
+            }
+        }
+    }
+    let mut per: BTreeMap<String, [u64; 4]> = BTreeMap::new();
+    for g in 0..job.glyphs {
+        let e = per.entry(classes[g as usize].clone()).or_default();
+        e[0] += 1;
+        e[1] += changed_mono[g as usize] as u64;
+        e[2] += changed_normal[g as usize] as u64;
+        if job.flavour == "glyf"
+            && freetype_pedantic_error(job, g, 17, Some(Hinting::Interpreter(HintingTarget::Normal))).is_some()
+        {
+            e[3] += 1;
+        }
+    }
+    json!(per
+        .into_iter()
+        .map(|(k, v)| (k, json!({"glyphs": v[0], "changed_by_hinting_mono": v[1], "changed_by_hinting_normal": v[2], "freetype_pedantic_errors": v[3]})))
+        .collect::<serde_json::Map<String, Value>>())
+}
+
+/// Write all synthetic families to `dir` and describe them as jobs.
+fn all_synth_jobs(dir: &std::path::Path) -> Vec<FontJob> {
+    let mut out = synth::write_family(dir);
+    // hinted TrueType family
+    let glyphs = synth_hint::glyphs();
+    for upem in synth_hint::UPEMS {
+        for (pi, (pname, prep)) in synth_hint::preps().into_iter().enumerate() {
+            // the prep variant is part of the class: the same instruction family can diverge for
+            // different reasons under different control-value programs
+            let classes = std::sync::Arc::new(
+                glyphs.iter().map(|g| format!("hinted {} (prep {pname})", g.class)).collect::<Vec<_>>(),
+            );
+            let bytes = synth_hint::build_font(upem, &prep, &glyphs);
+            let path = dir.join(format!("synth-tt-{upem}-{pname}.ttf"));
+            std::fs::write(&path, &bytes).expect("write synthetic font");
+            out.push(FontJob {
+                name: format!("synth-tt:upem={upem},prep={pname}"),
+                path,
+                index: 0,
+                glyphs: glyphs.len() as u32,
+                flavour: "glyf",
+                synthetic: true,
+                classes: Some(classes.clone()),
+                auto_modes: false,
+                thorough_n: Some(HINTED_TT_THOROUGH_N),
+                // quick: a plain font, a native-ClearType font and the INSTCTRL-2 font
+                in_quick: (upem == 2048 && pi == 0) || (upem == 1000 && (pi == 1 || pi == 2)),
+            });
+        }
+    }
+    // CFF family
+    let cs = synth_cff::charstrings();
+    let classes = std::sync::Arc::new(cs.iter().map(|c| format!("CFF {}", c.0)).collect::<Vec<_>>());
+    let programs: Vec<Vec<u8>> = cs.iter().map(|c| c.1.clone()).collect();
+    for (si, spec) in synth_cff::private_specs().into_iter().enumerate() {
+        let bytes = synth_cff::build_font(&spec, &programs);
+        let path = dir.join(format!("synth-cff-{si}.otf"));
+        std::fs::write(&path, &bytes).expect("write synthetic font");
+        out.push(FontJob {
+            name: format!("synth-cff:{}", spec.name),
+            path,
+            index: 0,
+            glyphs: programs.len() as u32,
+            flavour: "CFF",
+            synthetic: true,
+            classes: Some(classes.clone()),
+            auto_modes: false,
+            thorough_n: None,
+            in_quick: true,
+        });
+    }
+    out
+}
 
 fn skrifa_feature_report() -> Value {
     // Cargo passes the enabled features of *this* crate only; for skrifa we observe behaviour instead:
@@ -818,6 +969,10 @@ fn replay_case(run: &Run, case: &Value, synth_jobs: &[FontJob]) {
     };
     let c = compare_load(&mut ft, &mut sk, gid, ppem != 0, hinting.is_none(), &mut s);
     println!("replay: {} gid {gid} ppem {ppem} {}: {:?}", job.name, mode_name(mode), c);
+    if std::env::var("C03_DUMP").is_ok() {
+        println!("  FreeType: {}", render(&s.ft));
+        println!("  skrifa:   {}", render(&s.sk));
+    }
     if let Some((kind, detail)) = kind_of(&c) {
         if let Some(err) = freetype_pedantic_error(job, gid, ppem, mode) {
             println!("replay: FreeType aborts this glyph's bytecode under FT_LOAD_PEDANTIC ({err}): outside the property");
@@ -827,11 +982,7 @@ fn replay_case(run: &Run, case: &Value, synth_jobs: &[FontJob]) {
         if class == "auto" && AUTO_BASELINE_DISAGREES.contains(&short(&job.name)) {
             return;
         }
-        let label = if job.synthetic {
-            format!("synthetic {}", synth::class_of(gid))
-        } else {
-            short(&job.name).to_string()
-        };
+        let label = job.label(gid);
         run.violation(&format!("{kind} [{label}] mode={class}"), &detail, case.clone());
     }
 }
